@@ -272,6 +272,30 @@ pub mod i16_frames {
         kani::cover!(true, "end");
     }
 
+    /// 32-bit integer frames (whose float companion is only f32): on the sample grid the output is the
+    /// frame at idx EXACTLY - the kernel must carry samples in f64, where every i32 is exact
+    #[kani::proof]
+    #[kani::unwind(12)]
+    #[kani::stub(dasp_interpolate::sinc::ops::f64::sin, super::sin_table)]
+    #[kani::stub(dasp_interpolate::sinc::ops::f64::cos, super::cos_table)]
+    pub fn transparent_i32_frames() {
+        let fr: [i32; 5] = kani::any();
+        // depth 1 (ring of 2) and depth 2 (ring of 4), fully primed and wrapped
+        let mut s1 = Sinc::new(Fixed::from([0i32; 2]));
+        let mut s2 = Sinc::new(Fixed::from([0i32; 4]));
+        let mut i = 0;
+        while i < 5 {
+            s1.next_source_frame(fr[i]);
+            s2.next_source_frame(fr[i]);
+            i += 1;
+        }
+        // ring of 2 holds fr[3], fr[4]; idx = 1 -> fr[4]; ring of 4 holds fr[1..5]; idx = 2 -> fr[3]
+        assert!(s1.interpolate(0.0) == fr[4], "depth 1: exact on the grid for every i32");
+        assert!(s2.interpolate(0.0) == fr[3], "depth 2: exact on the grid for every i32");
+        kani::cover!(fr[4] > (1 << 24) + 1 && fr[4] % 2 == 1, "a value that does not fit an f32 mantissa");
+        kani::cover!(true, "end");
+    }
+
     /// Sinc::new refuses an odd-length ring (it could not be centred)
     #[kani::proof]
     pub fn new_requires_even_length() {
